@@ -9,26 +9,26 @@ ROOT = os.path.dirname(os.path.dirname(os.path.abspath(__file__)))
 sys.path.insert(0, ROOT)
 
 TECH = {
-    "C01": "path-sensitive guard/dominance rules over the traversal loop + finite-domain decision-table extraction (ast)",
+    "C01": "path-sensitive guard/dominance rules over the traversal loop, finite-domain decision-table extraction, structural definitions of the predicates/views used as atoms (ast)",
     "C02": "loop-progress path enumeration, predicate/filter sibling agreement, pairing of placeholder and resolution (ast)",
     "C03": "suspension-window (await) analysis between run decision and placeholder, field ownership, decision tables (ast)",
     "C04": "await-window atomicity of test-and-set, who-may-write ownership, release pairing on all exits (ast)",
     "C05": "who-may-call/effect ownership of removal requests, decision-table extraction of sync and clean decisions (ast)",
-    "C06": "edge-symmetry ownership, validate() coverage and raise-table extraction, root attachment counts (ast)",
-    "C07": "def-use provenance of dependency parameters, clone count and state renaming rules (ast)",
+    "C06": "edge-symmetry ownership, validate() coverage and raise-table extraction, root attachment counts, clone/registration provenance, per-worker symmetry of the eager parse (ast)",
+    "C07": "def-use provenance of dependency parameters, clone count and state renaming rules, error-discipline of the flat-node expansion, per-worker symmetry (ast)",
     "C08": "parameter provenance (worker never re-bound), foreign-worker raise rows, def-use of location/access parameters (ast)",
-    "C09": "bridging symmetry/aliasing ownership, single parsing entry point call-graph rule (ast)",
+    "C09": "bridging symmetry/aliasing ownership, single parsing entry point call-graph rule, position-independence and failure isolation of the per-worker parse, sibling agreement of restriction updates (ast)",
     "C10": "decision-table extraction of should_rerun, uid/def-use ordering, verdict quantifier shape (ast)",
     "C11": "tokenizer classification table extraction, raise-before-use ordering, override step order (ast)",
-    "C12": "exhaustive finite-domain decision-table extraction of check/get/set/unset/push/pop vs documented table (ast)",
+    "C12": "exhaustive finite-domain decision-table extraction of check/get/set/unset/push/pop vs documented table, yield-order rule of the object walk, per-object parameter provenance (ast)",
     "C13": "guard dominance of every transport call by the scope filter, sibling agreement of the four pool operations, constant ordering (ast)",
-    "C14": "lexical lock discipline (mutators inside image_lock), compare-then-copy guards, lock typestate of image_lock (ast)",
+    "C14": "lexical lock discipline (mutators inside image_lock), transitive no-nested-lock call-graph rule, compare-then-copy guards, whole-file comparison provenance, lock typestate of image_lock (ast)",
     "C15": "flag-operation ordering and argument provenance in the update tool (ast)",
     "C16": "writer/reader key agreement of the edge register, additive-trie ownership, sibling agreement of lookup and membership (ast)",
     "C17": "builtin type-lite of the cross-image accumulator, intersection-only dataflow, regular-language relations of the snapshot regexes (Brzozowski derivatives)",
     "C18": "count of add_interface per path, registry-key coherence around ip stores, allocation typestate (ast)",
     "C19": "mirror pairing of end-point parameter writes, peer-variant table, symmetry truth table of connects_nodes (ast)",
-    "C20": "chain-loop shape (no early exit, one call per step, failure sets code and continues), per worker x vm node count (ast)",
+    "C20": "chain-loop shape (no early exit, one call per step, failure sets code and continues), per worker x vm node count, step table of all published tools, return-value (status) propagation through reused tools (ast)",
 }
 
 
@@ -62,7 +62,7 @@ def main():
             "level_note": "Static analysis only: decides the listed structural clauses, not the behavioural property as a whole. "
                           "Trusted base: CPython ast, the engine in /verif/i2nsa (path enumerator, formula normaliser, rule code), the hand-written "
                           "reference tables; assumes cooperative single-threaded asyncio and no monkey-patching beyond the listed writers. "
-                          "Thorough tier additionally self-tests every rule with breaker/preserver variants of the current tree.",
+                          "Thorough tier additionally self-tests every rule with breaker/preserver variants of the current tree and records a sampled sensitivity sweep (generic one-site edits of the analysed functions: how many are noticed) in the evidence.",
             "technique": TECH[pid],
         })
     manifest = {
